@@ -46,10 +46,10 @@ EXHAUSTIVE = {
 FLOORS = {
     "quick": {"walks_static": 1000, "walks_mutated": 1500, "visits": 20000, "mutations_applied": 4000,
               "partial_path_steps": 100, "stale_cache_recoveries": 100, "stable_keys_checked": 8000,
-              "exhaustive_walks": 400},
+              "exhaustive_walks": 400, "walks_interleaved": 1000},
     "thorough": {"walks_static": 8000, "walks_mutated": 12000, "visits": 160000, "mutations_applied": 32000,
                  "partial_path_steps": 800, "stale_cache_recoveries": 800, "stable_keys_checked": 64000,
-                 "exhaustive_walks": 20000},
+                 "exhaustive_walks": 20000, "walks_interleaved": 10000},
 }
 
 
@@ -73,6 +73,8 @@ def pick(fog, strategy, rnd, step):
 
 
 def run_case(case, ctx):
+    if case.get("engine") == "dual":
+        return run_dual(case, ctx)
     t, db, model, ref = hs.build(case)
     prune = case.get("prune", False)
     rnd = random.Random(case.get("pseed", 0))
@@ -167,8 +169,103 @@ def run_case(case, ctx):
     ctx.shape(sig, len(states[0]) >= 2 or applied > 0)
 
 
+class Walk:
+    """one static walk as an object that can be stepped (for interleaving several walks)"""
+
+    def __init__(self, trie, model, strategy, use_cache, rnd, ctx, name):
+        self.t, self.model, self.strategy, self.use_cache, self.rnd, self.ctx, self.name = (
+            trie, model, strategy, use_cache, rnd, ctx, name)
+        self.fog = HexaryTrieFog()
+        self.cache = TrieFrontierCache()
+        self.met = []
+        self.visits = 0
+        self.nsteps = 0
+        self.bound = 50 * (len(RefTrie(model).preorder()) + 1)
+        self.done = False
+
+    def step(self):
+        self.nsteps += 1
+        p = pick(self.fog, self.strategy, self.rnd, self.nsteps)
+        if isinstance(p, Raised):
+            self.done = True
+            return
+        via_cache = False
+        if self.use_cache:
+            try:
+                cached, seg = self.cache.get(p)
+                via_cache = True
+            except KeyError:
+                pass
+        if via_cache:
+            res = cut(self.t.traverse_from, cached, seg, expect=(TraversedPartialPath,))
+        else:
+            res = cut(self.t.traverse, p, expect=(TraversedPartialPath,))
+        node = res.exc.simulated_node if isinstance(res, Raised) else res
+        if node.value:
+            full = tuple(int(x) for x in p) + tuple(int(x) for x in node.suffix)
+            if len(full) % 2:
+                raise Violation("walk-met-never-stored", "%s met a value at the odd-length nibble path %r" % (self.name, full))
+            self.met.append((unnibs(full), bytes(node.value)))
+        self.fog = cut(self.fog.explore, p, node.sub_segments)
+        if self.use_cache:
+            if node.sub_segments:
+                self.cache.add(p, node, node.sub_segments)
+            else:
+                self.cache.delete(p)
+        self.visits += 1
+        if self.visits > self.bound:
+            raise Violation("walk-not-terminating", "%s still running after %d visits" % (self.name, self.visits))
+
+    def finish(self):
+        if not self.fog.is_complete:
+            raise Violation("walk-fog-incomplete", "%s: PerfectVisibility raised but fog.is_complete is false" % self.name)
+        if sorted(self.met) != sorted(self.model.items()):
+            never = [k for k, v in self.met if self.model.get(k) != v]
+            missed = [k for k in self.model if k not in dict(self.met)]
+            raise Violation("walk-static-inexact" if not never else "walk-met-never-stored",
+                            "%s (interleaved with another walk over another trie) met %d pairs, its trie holds %d: %d never stored there, %d missed" % (
+                                self.name, len(self.met), len(self.model), len(never), len(missed)))
+
+
+def run_dual(case, ctx):
+    """Two walks alive at once: two tries with different contents over the SAME key universe (one
+    shared database), each walk with its own fog and its own TrieFrontierCache, steps interleaved
+    by a seeded scheduler.  Each walk must meet exactly its own trie's contents."""
+    rnd = random.Random(case.get("pseed", 0))
+    from vt.monitor.db import RecordingDB
+
+    db = RecordingDB()
+    db.record = False
+    tries, models = [], []
+    for hist in (case["hist"], case["hist_b"]):
+        t = HexaryTrie(db)
+        m = {}
+        for op in hist:
+            hh.apply_plain(t, m, op)
+        tries.append(t)
+        models.append(m)
+    walks = [Walk(tries[i], models[i], case["strategy"], case["cache"], random.Random(rnd.random()), ctx, "walk %d" % i)
+             for i in (0, 1)]
+    while not all(w.done for w in walks):
+        live = [w for w in walks if not w.done]
+        w = rnd.choice(live)
+        for _ in range(rnd.randint(1, 3)):
+            if not w.done:
+                w.step()
+    for w in walks:
+        w.finish()
+        ctx.count("visits", w.visits)
+    ctx.count("walks_interleaved", 2)
+    ctx.evaluated()
+    ctx.shape(("dual", RefTrie(models[0]).shape(), RefTrie(models[1]).shape(), case["strategy"], case["cache"]),
+              len(models[0]) >= 2 and len(models[1]) >= 2)
+
+
 def shrink(case, monitor):
     mod = sys.modules[__name__]
+    if case.get("engine") == "dual":
+        c = shrink_list(mod, case, monitor, field="hist_b")
+        return shrink_list(mod, c, monitor, field="hist")
     c = shrink_list(mod, case, monitor, field="muts")
     return shrink_list(mod, c, monitor, field="hist")
 
@@ -265,6 +362,19 @@ def run_shard(ctx):
     for i in range(n):
         case = gen_case(rnd, ctx.tier)
         if i == 1 or (i < 30 and case["muts"] and len(ctx.samples) < 2):
+            ctx.sample(case)
+        run_case_guarded(mod, case, ctx)
+        if ctx.full:
+            return
+    for i in range(150 if ctx.tier == "quick" else 1500):
+        kind = rnd.choice(["adv", "adv", "fix3", "chain", "nibbly"])
+        a = hs.gen_build(rnd, maxkeys=8, kind=kind, prune=False)
+        b = hs.gen_build(rnd, maxkeys=8, kind=kind, prune=False)
+        # the second trie shares keys (other values) with the first
+        extra = [["set", op[1], (b"zz" * rnd.choice([1, 20])).hex(), 0] for op in a["hist"] if op[0] == "set" and rnd.random() < 0.5]
+        case = {"engine": "dual", "hist": a["hist"], "hist_b": b["hist"] + extra, "pseed": rnd.randrange(1 << 30),
+                "cache": rnd.random() < 0.8, "strategy": rnd.choice(STRATEGIES)}
+        if i == 0:
             ctx.sample(case)
         run_case_guarded(mod, case, ctx)
         if ctx.full:
